@@ -909,12 +909,16 @@ def eval_reuse(case, tmp):
             w.close()
             return {"status": "writer refused write %d: %s" % (k, exc_name(e)), "failures": [], "expected": expected, "text": None}
     w.close()
-    if channel in ("handle", "ctor"):
-        text = keep["text"]
-        hdr, cols, got, rd = read_back(channel, text, None, mode)
-    else:
-        hdr, cols, got, rd = read_back(channel, None, path, mode)
-        text = None
+    try:
+        if channel in ("handle", "ctor"):
+            text = keep["text"]
+            hdr, cols, got, rd = read_back(channel, text, None, mode)
+        else:
+            hdr, cols, got, rd = read_back(channel, None, path, mode)
+            text = None
+    except Exception as e:  # noqa
+        return {"status": "read-back failed", "failures": [dict(where, what="the file of %d writes of a re-used record cannot be read back: %s" % (len(expected), exc_name(e)), kind="reuse", case=case)],
+                "expected": expected, "text": None}
     if len(got) != len(expected):
         failures.append(dict(where, what="%d writes of a re-used record, %d records read back" % (len(expected), len(got)), kind="reuse", case=case))
     for k, (g, (etext, evals)) in enumerate(zip(got, expected)):
